@@ -79,14 +79,23 @@ func (u *SPDX23) Unserialize(r io.Reader, _ *native.UnserializeOptions, _ interf
 	// TODO(degradation): SPDX LicenseVersion
 
 	for _, p := range spdxDoc.Packages {
+		if p == nil {
+			continue
+		}
 		bom.NodeList.AddNode(u.packageToNode(p))
 	}
 
 	for _, f := range spdxDoc.Files {
+		if f == nil {
+			continue
+		}
 		bom.NodeList.AddNode(u.fileToNode(f))
 	}
 
 	for _, r := range spdxDoc.Relationships {
+		if r == nil {
+			continue
+		}
 		// The SPDX go library surfaces the JSON top-level elements as relationships:
 		if r.RefA.ElementRefID == "DOCUMENT" && strings.EqualFold(r.Relationship, "DESCRIBES") {
 			bom.NodeList.RootElements = append(bom.NodeList.RootElements, string(r.RefB.ElementRefID))
@@ -169,6 +178,9 @@ func (u *SPDX23) packageToNode(p *spdx23.Package) *sbom.Node {
 	if len(p.PackageExternalReferences) > 0 {
 		n.ExternalReferences = []*sbom.ExternalReference{}
 		for _, r := range p.PackageExternalReferences {
+			if r == nil {
+				continue
+			}
 			extRefType, isIdentifier, err := u.extRefToProtobomEnum(r)
 			if err != nil {
 				// TODO(degradation): Invalid external reference
